@@ -91,8 +91,8 @@ func main() {
 	}
 
 	// budgets
-	nComp, nDBSmall, nDB := 6000, 260, 70
-	kComp, kDB := 700, 420
+	nComp, nDBSmall, nDB := 16000, 400, 160
+	kComp, kDB := 500, 300
 	maxMoves := 200
 	if a.Thorough() {
 		nComp, nDBSmall, nDB = 400000, 6000, 3000
@@ -112,6 +112,11 @@ func main() {
 		d5[fmt.Sprintf("comparer_%d_getOverlaps_follows_comparer", cid)] = honours[cid]
 	}
 	res.Extra["d5_probe"] = d5
+	res.Extra["not_generated"] = []string{
+		"inverted ranges (Start > Limit): DB.NewIterator panics in tFiles.newIndexIterator (tf[start:limit]) when a level >= 1 holds tables between the bounds",
+		"BlockCacheEvictRemoved=false: after Transaction.Discard the removed table's file number is reused and reads are served from the stale blocks still in the block cache (findings/C02_stale_block_cache_after_discard.json)",
+		"a transaction (explicit, or a batch larger than the write buffer) opened while a frozen memdb is still being flushed (defect D6 of DESIGN.md 2.3)",
+	}
 	allowTableComp := func(cid int) bool { return honours[cid] }
 
 	const W = 16
@@ -202,7 +207,10 @@ func main() {
 	}
 	// interleave so that every shard gets a similar mix
 	mixed := make([]string, 0, len(cases))
-	const shards = 16
+	shards := 16
+	if a.Thorough() {
+		shards = 24
+	}
 	for s := 0; s < shards; s++ {
 		for i := s; i < len(cases); i += shards {
 			mixed = append(mixed, cases[i])
